@@ -12,6 +12,8 @@
 #include <sys/time.h>
 #include <sys/epoll.h>
 #include <sys/eventfd.h>
+#include <sys/socket.h>
+#include <netdb.h>
 #ifdef __cplusplus
 extern "C" {
 #endif
@@ -45,6 +47,8 @@ int vf_epoll_wait(int, struct epoll_event*, int, int);
 ssize_t vf_read(int, void*, size_t);
 ssize_t vf_write(int, const void*, size_t);
 int vf_close(int);
+int vf_getaddrinfo(const char*, const char*, const struct addrinfo*, struct addrinfo**);
+void vf_freeaddrinfo(struct addrinfo*);
 #ifdef __cplusplus
 }
 #endif
@@ -78,4 +82,6 @@ int vf_close(int);
 #define read vf_read
 #define write vf_write
 #define close vf_close
+#define getaddrinfo vf_getaddrinfo
+#define freeaddrinfo vf_freeaddrinfo
 #endif
